@@ -377,6 +377,9 @@ RAW_VALID = ['()', '()(a)', 'a()b', '(|a)', '(a|)', '(())', '(?:)', '(?i:)', '(?
              '(?#c)', '(?#c)a|b', '(?>a|ab)c', 'a*+', '(?=a)b', '(?<!a)b|c', '(?i:a)|b', '[]]', '[^]]', '(?P<n>a)(?P=n)', '(a)\\1', '(?(1)a|b)', '(a)?(?(1)b)', '\\A\\Z', '(?s:.)', 'a|', '|', '||a', '(?:|)', '(a||b)']
 
 
+RAW_VALID += ['a\\\nb', '\\\t', '[\n\\\n]', 'x\x00y\\\x01', 'a\nb', '\\\u2028']     # a backslash directly before a non-printable character
+
+
 def raw_valid_programs():
     """valid regular expressions handed over with escape=False (empty groups, empty alternatives, nested and flagged groups,
     references): whatever they mean to the type inference, no builder call may die on them"""
